@@ -169,7 +169,7 @@ Ltac exit_tac b p x :=
   proj; rewrite (py_pop_emb (bd_stack b) p); unfold exit_scope;
   let Hs := fresh "Hs" in
   destruct (bd_stack b) as [|? ?] eqn:Hs; red_ctl; [proj; rewrite ?Hs; reflexivity|];
-  change x with (raw_of_part p); rewrite ?rawpart_eq_emb, ?rawpart_eq_emb_sym; red_ctl;
+  change x with (raw_of_part p); rewrite ?rawpart_eq_emb; try rewrite (part_eqb_sym p); red_ctl;
   split_ifs; proj; rewrite ?Hs; reflexivity.
 
 Theorem tie_cluster_exit : forall b nm p, scope_part (KCluster (rawstr_of nm)) = Some p ->
